@@ -289,7 +289,7 @@ fn gen_case(r: &mut Rng, id: usize) -> Case {
     // storage level: sorted (merge) scan of all columns when there is a sort key
     let mut scans = vec![];
     if pkdecl == PkDecl::Col {
-        scans.push(ScanReq { cols: (0..ncols).collect(), range: None, sorted: true });
+        scans.push(ScanReq { cols: (0..ncols).collect(), range: None, sorted: true, handler: 0 });
         // the ordered (merging) scan WITH a key range, as the executor requests it for
         // `WHERE k >= c ORDER BY k`
         if pk == Some(0) && cols[0].ty == Ty::I32 {
@@ -300,10 +300,10 @@ fn gen_case(r: &mut Rng, id: usize) -> Case {
                 1 => (Bnd::Excl(lo), Bnd::Incl(hi)),
                 _ => (Bnd::Unb, Bnd::Excl(hi)),
             };
-            scans.push(ScanReq { cols: (0..ncols).collect(), range: Some(range), sorted: true });
+            scans.push(ScanReq { cols: (0..ncols).collect(), range: Some(range), sorted: true, handler: 0 });
         }
     }
-    scans.push(ScanReq { cols: (0..ncols).collect(), range: None, sorted: false });
+    scans.push(ScanReq { cols: (0..ncols).collect(), range: None, sorted: false, handler: 0 });
     Case { id, nobg, block, cols, pk, pkdecl, ops, ops2, queries, scans }
 }
 
@@ -338,7 +338,8 @@ fn main() {
                     let p = d.plans(&line).map(|x| x.1).unwrap_or_else(|e| e);
                     println!("{line}\n  plan {p}\n  => {}", o.render(false));
                 } else {
-                    println!("{line} => {}", o.class());
+                    let p = if line.trim_start().to_lowercase().starts_with("delete") { d.plans(&line).map(|x| x.1).unwrap_or_else(|e| e) } else { String::new() };
+                    println!("{line} => {} {p}", o.render(false));
                 }
             }
             d.close();
